@@ -69,6 +69,11 @@ def _calls(repo, f: FuncInfo):
     return out
 
 
+def ffc_stmt(f, node):
+    """top-level statement of f that contains node"""
+    return next(st for st in f.node.body if any(n is node for n in ast.walk(st)))
+
+
 def check(ctx: Ctx):
     repo = ctx.repo
     ctx.decided = ("no recursion reachable from the builder; neighbour / relation collection of building nodes; token handling of the DFS; "
@@ -149,11 +154,46 @@ def check(ctx: Ctx):
         ctx.bad("R-NEIGHBORS", "loop over all relations", fn, fn.node, "")
     gd = repo.func(PT, "_generate_dfs_tree")
     ctx.touch(gd)
-    t = norm(gd.node)
-    ok = "n = _BuildingNode(v)" in t and "nodes.append(n)" in t and "neighbors, rels = _find_neighbors_relations(n, relations, nodes)" in t and "n._neighbors = neighbors" in t and "n.relations = rels" in t \
-        and "root.handle_token(None, token)" in t and "return root" in t
-    l1 = [l for l in gd.node.body if isinstance(l, ast.For) and norm(l.iter) == gd.params[0]]
-    ok = ok and len(l1) == 1 and not any(isinstance(n, (ast.If, ast.Break, ast.Continue)) for n in ast.walk(l1[0]))
+    pv_, pr_ = gd.params[0], gd.params[1]
+    # (1) one building node per variable: a loop over `variables` that appends _BuildingNode(<loop var>) to the node list, unconditionally
+    l1 = [l for l in gd.node.body if isinstance(l, ast.For) and norm(l.iter) == pv_]
+    ok = len(l1) == 1 and not any(isinstance(n, (ast.If, ast.Break, ast.Continue)) for n in ast.walk(l1[0]))
+    nodes_name = None
+    if ok:
+        mk = [c for c in ast.walk(l1[0]) if isinstance(c, ast.Call) and call_name(c) == "_BuildingNode" and [norm(a) for a in c.args] == [norm(l1[0].target)]]
+        app = [c for c in ast.walk(l1[0]) if isinstance(c, ast.Call) and isinstance(c.func, ast.Attribute) and c.func.attr == "append" and isinstance(c.func.value, ast.Name)]
+        ok = len(mk) == 1 and len(app) == 1
+        if ok:
+            nodes_name = app[0].func.value.id
+            a0 = app[0].args[0]
+            ok = a0 is mk[0] or (isinstance(a0, ast.Name) and any(isinstance(a, ast.Assign) and norm(a.targets[0]) == a0.id and a.value is mk[0] for a in l1[0].body))
+    # (2) every node wired with the neighbours and relations found among ALL relations and ALL nodes
+    if ok:
+        l2 = [l for l in gd.node.body if isinstance(l, ast.For) and norm(l.iter) == nodes_name and any(isinstance(c, ast.Call) and call_name(c) == "_find_neighbors_relations" for c in ast.walk(l))]
+        ok = len(l2) == 1
+        if ok:
+            nv_ = norm(l2[0].target)
+            fc = [c for c in ast.walk(l2[0]) if isinstance(c, ast.Call) and call_name(c) == "_find_neighbors_relations"]
+            ok = len(fc) == 1 and [norm(a) for a in fc[0].args] == [nv_, pr_, nodes_name] and not any(isinstance(n, (ast.If, ast.Break, ast.Continue)) for n in ast.walk(l2[0]))
+            st_ = next((s_ for s_ in l2[0].body if any(n is fc[0] for n in ast.walk(s_))), None)
+            if ok and isinstance(st_, ast.Assign) and isinstance(st_.targets[0], ast.Tuple) and len(st_.targets[0].elts) == 2:
+                t0, t1 = [norm(e) for e in st_.targets[0].elts]
+                if (t0, t1) != (f"{nv_}._neighbors", f"{nv_}.relations"):
+                    body_t = [norm(s_) for s_ in l2[0].body]
+                    ok = f"{nv_}._neighbors = {t0}" in body_t and f"{nv_}.relations = {t1}" in body_t
+            else:
+                ok = False
+    # (3) the DFS starts at the root with an empty token, and the root is returned
+    ht = [c for c in ast.walk(gd.node) if isinstance(c, ast.Call) and norm(c.func) == "root.handle_token"]
+    ok = ok and len(ht) == 1 and len(ht[0].args) == 2 and norm(ht[0].args[0]) == "None"
+    if ok:
+        tk = ht[0].args[1]
+        if isinstance(tk, ast.Name):
+            d_ = [a.value for a in gd.node.body if isinstance(a, ast.Assign) and norm(a.targets[0]) == tk.id]
+            tk = d_[0] if len(d_) == 1 else tk
+        ok = isinstance(tk, ast.List) and not tk.elts
+    rets_ = [r for r in walk_no_nested(gd.node) if isinstance(r, ast.Return)]
+    ok = ok and len(rets_) == 1 and norm(rets_[0].value) == "root" and gd.node.body.index(ffc_stmt(gd, ht[0])) < gd.node.body.index(rets_[0]) if ok else False
     ctx.check(ok, "R-NEIGHBORS", "one building node per remaining variable, wired with its neighbours and relations among *all* relations; DFS started at the root with an empty token", gd, gd.node, "")
     reb = [a for a in ast.walk(gd.node) if isinstance(a, (ast.Assign, ast.AugAssign, ast.AnnAssign)) and any(isinstance(t_, ast.Name) and t_.id in gd.params[:2] for t_ in (a.targets if isinstance(a, ast.Assign) else [a.target]))]
     ctx.check(not reb, "R-NEIGHBORS", "the variables and the relations given to _generate_dfs_tree are used whole (never filtered or rebound)", gd, reb[0] if reb else gd.node,
@@ -269,7 +309,17 @@ def check(ctx: Ctx):
         else:
             ok = src_ok and len(loops) == 3 and norm(loops[2].test) == f"{nv}.{KINDS[kind]}" and norm(c.args[2]) == f"{norm(loops[2].node.target)}.name"
         st = ffc.stmt(c)
-        ok = ok and norm(st).startswith(f"links[{nv}.name].append(")
+        # stored under the node's own name: directly, or through a per-node list that is then added to links[<node>.name]
+        direct = norm(st).startswith(f"links[{nv}.name].append(")
+        via = None
+        if not direct and isinstance(st, ast.Expr) and isinstance(st.value, ast.Call) and isinstance(st.value.func, ast.Attribute) and st.value.func.attr == "append" and isinstance(st.value.func.value, ast.Name):
+            tmpl = st.value.func.value.id
+            node_loop = loops[1].node if len(loops) > 1 else None
+            if node_loop is not None:
+                init = [a for a in node_loop.body if isinstance(a, ast.Assign) and norm(a.targets[0]) == tmpl and isinstance(a.value, ast.List) and not a.value.elts]
+                ext = [e for e in node_loop.body if isinstance(e, ast.Expr) and norm(e.value) in (f"links[{nv}.name].extend({tmpl})", f"links[{nv}.name] += {tmpl}")]
+                via = len(init) == 1 and len(ext) == 1 and node_loop.body.index(init[0]) < node_loop.body.index(ext[0])
+        ok = ok and (direct or bool(via))
         ctx.check(ok, "R-LINKTABLE", f"'{kind}' links: one per element of the node's {KINDS[kind]} list, source = the node", ci, c,
                   "DPOP reads parent / children / pseudo parents from these links: a kind built from another list, or with source and target swapped, yields an inconsistent tree")
     # reader: kind -> slot
